@@ -1,4 +1,53 @@
-import Stbem.Model.SingleLayer
-namespace Stbem.SL
-theorem placeholder_C01 : True := trivial
-end Stbem.SL
+import Stbem.Props.SL
+import Stbem.Props.Formulas
+import Stbem.Props.C15
+
+/-!
+# C01 — Galerkin entries: panel recursion, rules, request, kernels, closed forms
+
+the panel recursion is total on grid-aligned inputs, its panels tile the parameter rectangle, every singular rule sits exactly where the integrand is singular (diagonal, corners, seam), the request feeds each quadrature variable to the right parametrisation, the composite rules are exact on polynomials (C15), the time kernel and the closed forms satisfy their structural, differential and Ψ identities. That the fixed order-12 log rules resolve the heat kernel to 1e-7 is NOT a theorem (search only): claim partial.
+
+The theorems are proved in `Stbem.Props.SL` (model `Stbem.Model.SingleLayer`, tied to `src/single_layer.py` by exact
+execution of the real code), `Stbem.Props.Formulas` (terms regenerated from the Python source on every run) and
+`Stbem.Props.C15`; this file lists, as aliases, the ones that carry property C01.
+-/
+namespace Stbem.C01
+
+alias panels_total := Stbem.SL.panels_total
+alias panels_total_depth := Stbem.SL.panels_total_depth
+alias panels_fuel_irrelevant := Stbem.SL.panels_fuel_irrelevant
+alias seam_clause_of_nested := Stbem.SL.seam_clause_of_nested
+alias panels_tile := Stbem.SL.panels_tile
+alias panels_cover_unique := Stbem.SL.panels_cover_unique
+alias panels_ok_pre := Stbem.SL.panels_ok_pre
+alias panels_aligned := Stbem.SL.panels_aligned
+alias panels_open_misses_diag := Stbem.SL.panels_open_misses_diag
+alias panels_closed_meets_diag := Stbem.SL.panels_closed_meets_diag
+alias panels_seam := Stbem.SL.panels_seam
+alias swap_consistent_fst := Stbem.SL.swap_consistent_fst
+alias swap_consistent_snd := Stbem.SL.swap_consistent_snd
+alias stik_succeeds := Stbem.SL.stik_succeeds
+alias stik_symm := Stbem.SL.stik_symm
+alias dtk_structure := Stbem.Formulas.R.dtk_structure
+alias dtk_four_term := Stbem.Formulas.R.dtk_four_term
+alias Fp_deriv := Stbem.Formulas.R.Fp_deriv
+alias ei_deriv := Stbem.Formulas.R.ei_deriv
+alias g_deriv := Stbem.Formulas.R.g_deriv
+alias f_deriv := Stbem.Formulas.R.f_deriv
+alias stik_1_structure := Stbem.Formulas.R.stik_1_structure
+alias stik_2_structure := Stbem.Formulas.R.stik_2_structure
+alias stik_3_structure := Stbem.Formulas.R.stik_3_structure
+alias stik_4_structure := Stbem.Formulas.R.stik_4_structure
+alias fint2_eq := Stbem.Formulas.R.fint2_eq
+alias fint3_eq := Stbem.Formulas.R.fint3_eq
+alias fint4_eq := Stbem.Formulas.R.fint4_eq
+alias fint4_touch := Stbem.Formulas.R.fint4_touch
+alias fint3_same := Stbem.Formulas.R.fint3_same
+alias duffy2_exact := Stbem.Quad.duffy2_exact
+alias product2_exact := Stbem.Quad.product2_exact
+alias apply2_duffy2_false := Stbem.Quad.apply2_duffy2_false
+alias apply2_mirrorX2 := Stbem.Quad.apply2_mirrorX2
+alias apply2_mirrorY2 := Stbem.Quad.apply2_mirrorY2
+alias integrate2_eq := Stbem.Quad.integrate2_eq
+
+end Stbem.C01
